@@ -2,3 +2,7 @@ import Lungo.Model.Value
 import Lungo.Model.Num
 import Lungo.Model.Compare
 import Lungo.Model.Json
+import Lungo.Spec.I64Ok
+import Lungo.Proofs.Order
+import Lungo.Proofs.CompareLaws
+import Lungo.Props.C12
